@@ -44,9 +44,17 @@ class PropSpec:
 
 def diff_sides(es, io, mo, ops=None):
     a = core.compared(io)
+    mo0 = list(mo)
     if es.mask:
         a, mo = es.mask(a, mo, ops)
-    return core.first_diff(a, mo)
+    d = core.first_diff(a, mo)
+    if d is None:
+        # a mask may end the comparison of a history early (the model does not follow what came before); a step on which the
+        # real code panicked or died is never masked: the model answers every step
+        for i, x in enumerate(core.compared(io)):
+            if x and x.startswith(("PANIC", "DIED")) and (i >= len(mo0) or mo0[i] != x):
+                return i, x, mo0[i] if i < len(mo0) else "<missing>"
+    return d
 
 
 def load_corpus(engine_dir):
